@@ -414,3 +414,538 @@ def canon_model(m):
         "complete_set": r["complete_set"],
         "end": str(frac(r["end"])),
     }
+
+
+# ------------------------------------------------------------------------------------------------
+# case generator (all randomness from the rng passed in)
+# ------------------------------------------------------------------------------------------------
+def qs(fr):
+    fr = Fraction(fr)
+    return f"{fr.numerator}/{fr.denominator}"
+
+
+def dy(rng, lo, hi, bits=10):
+    """dyadic rational in [lo, hi], a multiple of 2^-bits"""
+    return Fraction(rng.randrange(int(lo * 2**bits), int(hi * 2**bits) + 1), 2**bits)
+
+
+def fl_(rng, lo, hi):
+    """an arbitrary double in [lo, hi] as an exact Fraction"""
+    return Fraction(rng.uniform(lo, hi))
+
+
+UNITS = ["ops", "docs", "pages", "MB"]
+POW2_TOTALS = [(0, 1), (0, 2), (1, 1), (0, 4), (1, 3), (2, 2), (3, 1), (0, 8), (3, 5), (2, 6), (4, 4), (7, 1), (5, 11), (0, 16)]
+
+
+def gen_duration(rng, exact, interval, profile):
+    """a service time: zero / small / around the target interval / far slower than it"""
+    r = rng.random()
+    base = interval if interval else Fraction(1, 4)
+    if r < 0.08:
+        return Fraction(0)
+    if r < 0.45:
+        lo, hi = 0, min(float(base) / 2, 0.25) + 1 / 1024
+    elif r < 0.75:
+        lo, hi = float(base) / 2, float(base) * 1.5 + 1 / 1024
+    elif r < 0.93:
+        lo, hi = float(base) * 1.5, float(base) * 6 + 1 / 512
+    else:
+        lo, hi = float(base) * 6, float(base) * 40 + 1 / 256
+    hi = min(hi, 64.0)
+    lo = min(lo, hi)
+    return dy(rng, lo, hi) if exact else fl_(rng, lo, hi)
+
+
+def gen_overhead(rng, exact):
+    r = rng.random()
+    if r < 0.5:
+        return Fraction(0)
+    if r < 0.9:
+        return dy(rng, 0, 1 / 64) if exact else fl_(rng, 0, 0.02)
+    return dy(rng, 0, 1) if exact else fl_(rng, 0, 1.0)
+
+
+def gen_outcome(rng, exact, unit, weights, err_p, mismatch):
+    r = rng.random()
+    w = rng.choice(weights)
+    u = unit
+    one = weights == [1]  # a missing weight means 1
+    if mismatch and rng.random() < mismatch:
+        u = rng.choice([x for x in UNITS if x != unit])
+    if r < err_p:
+        k = rng.choice(["api", "api", "transport", "transport-status", "timeout", "tls", "connection", "key", "value", "dict-fail", "dict-fail"])
+        if k == "api":
+            return {"k": "api", "status": rng.choice([400, 404, 409, 429, 500, 503])}
+        if k == "transport":
+            return {"k": "transport", "status": None}
+        if k == "transport-status":
+            return {"k": "transport", "status": rng.choice([500, 502])}
+        if k == "dict-fail":
+            return {"k": "dict", "w": rng.choice([None, 0, w] if one else [0, w]), "unit": rng.choice([None, u]) if unit == "ops" else u, "success": False, "tput": None,
+                    "etype": rng.choice([None, "bulk"])}
+        return {"k": k}
+    r = rng.random()
+    if r < 0.45:
+        return {"k": "tuple", "w": w, "unit": u}
+    if r < 0.9:
+        tput = None
+        if rng.random() < 0.1:
+            tput = qs(dy(rng, 0, 100, 4) if exact else fl_(rng, 0, 100))
+        return {"k": "dict", "w": rng.choice([w, w, None]) if one else w, "unit": u if (unit != "ops" or rng.random() < 0.7) else None,
+                "success": rng.choice([None, True]), "tput": tput, "etype": None}
+    return {"k": "none"} if (unit == "ops" and one) else {"k": "tuple", "w": w, "unit": u}
+
+
+def gen_case(rng, exact, profile):
+    """profile: 'timing' (C04: throttling, errors, slow services) or 'loop' (C05: loop control, pacing, ramp-up)"""
+    C = rng.choice([1, 1, 2, 2, 3, 4, 5, 8])
+    throttled = rng.random() < (0.7 if profile == "timing" else 0.55)
+    sched = rng.choice([None, None, "deterministic", "poisson"]) if rng.random() > 0.02 else "custom-unregistered"
+    unit = rng.choice(UNITS) if rng.random() < 0.5 else "ops"
+    tput = None
+    interval = None  # per-client interval for weight w0 (None: unthrottled)
+    w0 = rng.choice([1, 1, 1, 2, 3, 5, 10, 100, 1000, 5000]) if unit != "ops" else rng.choice([1, 1, 1, 1, 2, 7])
+    weights = [w0]
+    mismatch = 0.0
+    if throttled:
+        how = rng.choice(["str", "str", "num", "interval"])
+        tunit = unit
+        if how != "str":
+            tunit = "ops"
+        if exact:
+            k = rng.choice([-3, -2, -1, 0, 1, 2, 3, 4, 5])
+            if how == "interval":
+                # 1/ti / C / w = 2^k with ti a double: C and w powers of two
+                C = rng.choice([1, 2, 4, 8])
+                w0 = rng.choice([1, 2, 4]) if unit == "ops" else 1
+                T = Fraction(2) ** k * C * w0
+                tput = {"ti": {"kind": "float", "q": qs(1 / T)} if (1 / T).denominator != 1 or rng.random() < 0.5 else {"kind": "int", "v": str(int(1 / T))}}
+            else:
+                weff = w0 if tunit == unit else 1
+                T = Fraction(2) ** k * C * weff
+                if how == "str":
+                    s = str(float(T)) if T.denominator != 1 or rng.random() < 0.3 else str(int(T))
+                    tput = {"tt": {"kind": "str", "s": f"{s} {tunit}/s"}}
+                else:
+                    tput = {"tt": {"kind": "float", "q": qs(T)} if T.denominator != 1 or rng.random() < 0.3 else {"kind": "int", "v": str(int(T))}}
+            weights = [w0, w0, w0, w0 * 2, w0 * 4] if rng.random() < 0.3 else [w0]
+            interval = 1 / Fraction(2) ** k
+        else:
+            T = Fraction(rng.choice([0.1, 0.5, 1, 2, 3, 7, 10, 15.5, 33, 100, 250, 1000, 12345.678])) * (w0 if tunit == unit else 1)
+            if rng.random() < 0.3:
+                T = Fraction(rng.uniform(0.05, 500))
+            if how == "interval":
+                ti = 1 / T
+                tput = {"ti": {"kind": "float", "q": qs(Fraction(float(ti)))}}
+            elif how == "str":
+                tput = {"tt": {"kind": "str", "s": f"{float(T):.6f}".rstrip("0").rstrip(".") + f" {tunit}/s"}}
+                if tput["tt"]["s"].startswith(" "):
+                    tput["tt"]["s"] = "1" + tput["tt"]["s"]
+            else:
+                tput = {"tt": {"kind": "float", "q": qs(Fraction(float(T)))} if rng.random() < 0.5 or T.denominator != 1 else {"kind": "int", "v": str(int(T))}}
+            weights = [w0, w0, w0, max(1, w0 - 1), w0 + 3] if rng.random() < 0.3 else [w0]
+            interval = Fraction(C * (w0 if tunit == unit else 1)) / T
+            interval = min(interval, Fraction(30))
+        if tunit != unit:
+            mismatch = 0.0  # the runner's unit already differs from the target unit (ops/s fallback)
+        else:
+            r = rng.random()
+            mismatch = 0.3 if r < 0.06 else 0.0
+            if exact and weights != [1] and tunit == "ops":
+                mismatch = 0.0  # the ops/s fallback resets the weight to 1
+        if rng.random() < 0.03:
+            # both given: InvalidSyntax
+            tput = {"tt": {"kind": "int", "v": "5"}, "ti": {"kind": "int", "v": "2"}}
+    elif rng.random() < 0.1:
+        tput = rng.choice([{"tt": {"kind": "int", "v": "0"}}, {"ti": {"kind": "int", "v": "0"}}, {"tt": {"kind": "str", "s": "0 ops/s"}},
+                           {"tt": {"kind": "str", "s": "fast"}}, {"tt": {"kind": "bool", "b": True}}, {"tt": {"kind": "bool", "b": False}},
+                           {"tt": {"kind": "list", "n": 0}}, {"ti": {"kind": "str", "s": "5"}}])
+
+    # loop control
+    kind = rng.choice(["iter", "iter", "time", "time", "none"]) if profile == "loop" else rng.choice(["iter", "iter", "iter", "time", "none"])
+    warmup_it = iters = warmup_t = period = ramp = None
+    runner_completion = rng.random() < 0.12
+    src_infinite = True
+    n_plan = 0
+    base = interval if interval else Fraction(1, 4)
+    if kind == "iter":
+        if exact:
+            warmup_it, iters = rng.choice(POW2_TOTALS)
+            if iters == 0:
+                iters = 1
+            r = rng.random()
+            if r < 0.1:
+                warmup_it = None if warmup_it == 0 else warmup_it
+        else:
+            warmup_it = rng.choice([None, 0, 1, 2, 3, 5, 9])
+            iters = rng.choice([1, 1, 2, 3, 4, 6, 7, 13, 20])
+        r = rng.random()
+        if r < 0.07:
+            iters = None  # only warm-up iterations given
+            if exact:
+                warmup_it = rng.choice([1, 3, 7])
+        elif r < 0.10 and not exact:
+            iters = 0  # outside the schema (minimum 1)
+        total = (warmup_it or 0) + (iters or 1)
+        n_plan = total + rng.choice([0, 0, 1, 3])
+        if rng.random() < 0.1:
+            n_plan = max(0, total - rng.choice([1, 2]))
+            src_infinite = rng.random() < 0.5
+        if iters is None and rng.random() < 0.5:
+            src_infinite = False
+    elif kind == "time":
+        if exact:
+            wt, pt = rng.choice([(0, 1), (0, 2), (1, 1), (0, 4), (1, 3), (2, 2), (3, 5), (4, 4), (0, 8)])
+            scale = rng.choice([1, 1, 1, Fraction(1, 2), Fraction(1, 4)])
+            wt, pt = wt * scale, pt * scale
+        else:
+            wt = rng.choice([0, 0, 1, 2, 3, Fraction(1, 2), Fraction(3, 10)])
+            pt = rng.choice([1, 2, 3, 5, 7, Fraction(5, 2), Fraction(7, 10)])
+        def numspec(v):
+            v = Fraction(v)
+            return {"int": int(v)} if v.denominator == 1 else {"float": qs(Fraction(float(v)))}
+        warmup_t = numspec(wt) if (wt != 0 or rng.random() < 0.6) else None
+        period = numspec(pt)
+        r = rng.random()
+        if r < 0.08:
+            period = None  # warm-up time period only: infinite loop control, source decides
+            warmup_t = numspec(wt)
+        if rng.random() < (0.35 if profile == "loop" else 0.1):
+            rp_ = rng.choice([1, 2, 4]) if exact else rng.choice([1, 2, 3, 5, Fraction(1, 2)])
+            ramp = numspec(rp_)
+        dur = float(wt + pt)
+        n_plan = int(min(48, dur / max(float(base), 1 / 64) * rng.choice([0.5, 1.5, 2, 3]) + 2))
+        src_infinite = rng.random() < 0.8
+    else:
+        src_infinite = rng.random() < 0.5
+        n_plan = rng.choice([0, 1, 2, 5, 9])
+        if rng.random() < 0.3:
+            runner_completion = True
+    if rng.random() < 0.02:
+        ramp = {"int": rng.choice([1, 2])}  # ramp-up on an iteration based task (the loader forbids it, the executor does not care)
+
+    if ramp is not None:
+        total_clients = rng.choice([1, 2, 4, 8]) if exact else rng.choice([1, 2, 3, 5, 6, 7, 10])
+        total_clients = max(total_clients, 1)
+        gidx = rng.randrange(0, total_clients)
+        C = min(C, total_clients) if not (exact and throttled) else C
+    else:
+        total_clients = C + rng.choice([0, 0, 1, 4])
+        gidx = rng.randrange(0, total_clients)
+    idx = rng.randrange(0, C)
+
+    err_p = rng.choice([0, 0, 0.1, 0.3]) if profile == "timing" else rng.choice([0, 0, 0, 0.15])
+    src_progress = (not src_infinite or kind != "iter") and rng.random() < 0.4
+    reqs = []
+    prog_r = Fraction(0)
+    prog_s = Fraction(0)
+    done_at = rng.randrange(0, max(1, n_plan)) if runner_completion and rng.random() < 0.6 else None
+    for i in range(n_plan):
+        if runner_completion and rng.random() < 0.7:
+            prog_r = Fraction(float(min(Fraction(1), prog_r + (dy(rng, 0, 1 / 4, 6) if exact else fl_(rng, 0, 0.25)))))
+            rp = qs(prog_r)
+        else:
+            rp = None
+        prog_s = Fraction(float(min(Fraction(1), prog_s + (dy(rng, 0, 1 / 4, 6) if exact else fl_(rng, 0, 0.25)))))
+        reqs.append(
+            {
+                "gen": qs(gen_overhead(rng, exact)) if rng.random() < 0.5 else "0/1",
+                "pre": qs(gen_overhead(rng, exact)),
+                "service": qs(gen_duration(rng, exact, base, profile)),
+                "post": qs(gen_overhead(rng, exact)),
+                "draw": qs((dy(rng, 0, float(base) * 3, 8) if exact else fl_(rng, 0, float(base) * 3)) if rng.random() > 0.05 else Fraction(0)),
+                "out": gen_outcome(rng, exact, unit, weights, err_p, mismatch),
+                "rc": (done_at is not None and i >= done_at) if runner_completion else None,
+                "rp": rp,
+                "sp": qs(prog_s) if rng.random() < 0.9 else None,
+            }
+        )
+    t0 = dy(rng, 0, 512) if exact else fl_(rng, 0, 5000)
+    epoch = Fraction(1_600_000_000) + (dy(rng, 0, 1000, 4) if exact else fl_(rng, 0, 1e6))
+    epoch = Fraction(float(epoch))
+    return {
+        "task": {"warmup_it": warmup_it, "iters": iters, "warmup_t": warmup_t, "period": period, "ramp_up": ramp, "clients": C, "tput": tput,
+                 "sched": sched, "completes_parent": rng.random() < 0.06, "any_completes_parent": rng.random() < 0.06},
+        "client": {"id": rng.randrange(0, 64), "idx": idx, "gidx": gidx, "total": total_clients},
+        "t0": qs(t0), "epoch": qs(epoch),
+        "on_error": "abort" if rng.random() < (0.2 if err_p else 0.05) else "continue",
+        "runner_completion": runner_completion, "src_infinite": src_infinite, "src_progress": src_progress,
+        "cancel_at": rng.randrange(0, n_plan + 1) if rng.random() < 0.06 else None,
+        "complete_at": rng.randrange(0, n_plan + 1) if rng.random() < 0.06 else None,
+        "queue_cap": rng.choice([1, 2, 3, 5]) if rng.random() < 0.05 else 16384,
+        "reqs": reqs,
+    }
+
+
+# ------------------------------------------------------------------------------------------------
+# running one case: model (IEEE mode always, exact-rational mode for dyadic cases) vs implementation
+# ------------------------------------------------------------------------------------------------
+TOL = Fraction(1, 10**9)
+
+
+def close(a, b, exact):
+    if exact:
+        return a == b
+    return abs(a - b) <= TOL * max(1, abs(a), abs(b))
+
+
+def geq(a, b, exact):
+    """a >= b (up to the tolerance of the float stream)"""
+    if exact:
+        return a >= b
+    return a >= b - TOL * max(1, abs(a), abs(b))
+
+
+def run_exec(ctx, case, oracles):
+    """model in IEEE mode must equal the implementation on every case; when the exact-rational model gives the
+    same answer as the IEEE model (all float operations of this run were exact, e.g. dyadic inputs) the case also ties
+    the `r = id` instance the theorems are about, and the oracles compare without tolerance."""
+    impl = run_impl(case)
+    ci = canon_impl(impl)
+    cms = {}
+    tags = None
+    for mode in ("dbl", "exact"):
+        a = dict(case)
+        a["mode"] = mode
+        m = ctx.model("exec", "run", a)
+        cms[mode] = canon_model(m)
+        if tags is None:
+            tags = m.get("tags", [])
+    exact = cms["dbl"] == cms["exact"]
+    if cms["dbl"] != ci:
+        keys = [k for k in ci if ci[k] != cms["dbl"][k]]
+        ctx.diff("run[dbl]:" + ",".join(keys), {k: cms["dbl"][k] for k in keys}, {k: ci[k] for k in keys})
+    case = dict(case)
+    case["exact"] = exact
+    for o in oracles:
+        o(ctx, case, impl)
+    ctx.count("result:" + ci["result"])
+    ctx.count("arith:exact" if exact else "arith:rounded")
+    nontrivial = len(impl.get("samples", [])) >= 2
+    ctx.sig([sorted(tags or []), ci["result"], exact], nontrivial=nontrivial)
+    return impl
+
+
+def _raising(case, out):
+    """does this runner outcome end the executor (independent reading of execute_single's contract)?"""
+    k = out["k"]
+    if k in ("key", "value"):
+        return True
+    failed = k in ("api", "transport", "timeout", "tls", "connection") or (k == "dict" and out.get("success") is False)
+    return failed and (case["on_error"] == "abort" or k == "connection")
+
+
+NO_RUN = ("InvalidSyntax", "NoScheduler", "RallyAssertionError")
+
+
+def oracle_c04(ctx, case, impl):
+    """C04 on observable output only: drained samples, tuples yielded by the schedule, endpoint request log"""
+    if impl["result"] in NO_RUN or impl["result"].startswith("raised:"):
+        return
+    exact = bool(case.get("exact"))
+    t0, epoch = Fraction(case["t0"]), Fraction(case["epoch"])
+    reqs, tuples, samples, wire = case["reqs"], impl["tuples"], impl["samples"], impl["wire"]
+    raised = impl["result"] != "ok"
+    n_wire = len(wire)
+    # --- abort_raises
+    for i in range(n_wire):
+        if _raising(case, reqs[i]["out"]) and not (raised and i == n_wire - 1):
+            ctx.fail("abort-policy", f"request {i} must abort the executor but the run went on", "RallyError", impl["result"])
+    if impl["result"] in ("RallyError:assertion", "RallyError:setup", "RallyError:other") and (n_wire == 0 or not _raising(case, reqs[n_wire - 1]["out"])):
+        ctx.fail("spurious-abort", "executor raised although the last request must not abort", "ok", impl["result"])
+    # --- one_sample_per_request
+    executed = n_wire - (1 if raised else 0)
+    if impl["runner_calls"] != n_wire:
+        ctx.fail("wire-count", "runner calls and wire requests differ", impl["runner_calls"], n_wire)
+    if len(samples) != min(executed, case["queue_cap"]):
+        ctx.fail("sample-count", "number of samples != number of executed requests (minus queue-full drops)", min(executed, case["queue_cap"]), len(samples))
+    late_prev = None
+    for i, s in enumerate(samples):
+        w0, w1 = Fraction(wire[i][0]), Fraction(wire[i][1])
+        tup = tuples[i]
+        sched = Fraction(tup["sched"])
+        service, processing, latency = Fraction(s["service"]), Fraction(s["processing"]), Fraction(s["latency"])
+        if not close(service, w1 - w0, exact):
+            ctx.fail("service-span", f"sample {i}: service time is not response - request", str(w1 - w0), str(service))
+        if not (service >= 0 and geq(processing, service, exact)):
+            ctx.fail("service-range", f"sample {i}: 0 <= service <= processing violated", None, [str(service), str(processing)])
+        if s["client"] != case["client"]["id"] or not s["task_is_task"] or s["warmup"] != tup["warmup"] or Fraction(s["start"]) != w0:
+            ctx.fail("sample-identity", f"sample {i}: client/task/sample type/issue time do not belong to request {i}", None, s)
+        if not (geq(Fraction(s["abs"]), Fraction(tup["at"]) + epoch, exact) and geq(w0 + epoch, Fraction(s["abs"]), exact)):
+            ctx.fail("sample-identity", f"sample {i}: absolute time outside [yield, issue]", None, s["abs"])
+        if not close(Fraction(s["period"]), w1 - t0, exact):
+            ctx.fail("time-period", f"sample {i}: time period is not response - task start", str(w1 - t0), str(s["period"]))
+        if not close(Fraction(s["relative"]), w0 - Fraction(s["task_start"]), exact):
+            ctx.fail("sample-identity", f"sample {i}: relative time", None, s["relative"])
+        out = reqs[i]["out"]
+        if out["k"] in ("api", "transport", "timeout", "tls") and (s["success"] is not False or s["ops"] != 0):
+            ctx.fail("error-sample", f"sample {i}: failed request not recorded as failure with 0 ops", None, s)
+        if sched > 0:
+            if not geq(w0, t0 + sched, exact):
+                ctx.fail("early-issue", f"request {i} issued before its scheduled time", str(t0 + sched), str(w0))
+            # time.time() is ~1.6e9: one ulp is 2.4e-7, so the float stream gets an absolute slack of 1e-6 here
+            if not (Fraction(s["abs"]) >= t0 + sched + epoch - (0 if exact else Fraction(1, 10**6))):
+                ctx.fail("early-issue", f"sample {i}: absolute (issue) time is before the scheduled time", str(t0 + sched + epoch), str(s["abs"]))
+            if not close(latency, w1 - (t0 + sched), exact):
+                ctx.fail("latency-def", f"sample {i}: throttled latency is not response - scheduled time", str(w1 - (t0 + sched)), str(latency))
+            if not geq(latency, service, exact):
+                ctx.fail("latency-def", f"sample {i}: latency < service time", str(service), str(latency))
+            lateness = w0 - (t0 + sched)
+            if late_prev is not None:
+                p_late, p_service, p_sched = late_prev
+                if p_service >= sched - p_sched and not geq(lateness, p_late, exact):
+                    ctx.fail("latency-growth", f"sample {i}: service slower than the interval but lateness shrank", str(p_late), str(lateness))
+            late_prev = (lateness, service, sched)
+            ctx.count("oracle:throttled-sample")
+            if lateness > 0:
+                ctx.count("oracle:behind-schedule")
+        else:
+            late_prev = None
+            if latency != service:
+                ctx.fail("latency-def", f"sample {i}: unthrottled latency != service time", str(service), str(latency))
+
+
+def _tput_reading(case):
+    """(T, unit) by an independent reading of the well-formed specs the generator produces; None if unthrottled / malformed"""
+    tp = case["task"].get("tput")
+    if not tp:
+        return None
+    tt, ti = tp.get("tt"), tp.get("ti")
+    if tt is not None and ti is not None:
+        return None
+    try:
+        if ti is not None:
+            v = Fraction(ti["v"]) if ti["kind"] == "int" else Fraction(ti["q"])
+            return (1 / Fraction(float(v)), "ops/s") if v else None
+        if tt["kind"] == "str":
+            a, b = tt["s"].split(" ")
+            return (Fraction(a), b) if Fraction(a) and b.endswith("/s") else None
+        if tt["kind"] in ("int", "float"):
+            v = Fraction(tt["v"]) if tt["kind"] == "int" else Fraction(tt["q"])
+            return (v, "ops/s") if v else None
+    except (ValueError, KeyError, ZeroDivisionError):
+        return None
+    return None
+
+
+def oracle_c05(ctx, case, impl):
+    if impl["result"] in NO_RUN or impl["result"].startswith("raised:"):
+        return
+    exact = bool(case.get("exact"))
+    t = case["task"]
+    t0 = Fraction(case["t0"])
+    reqs, tuples, samples, wire = case["reqs"], impl["tuples"], impl["samples"], impl["wire"]
+    natural = (impl["result"] == "ok" and case["cancel_at"] is None and case["complete_at"] is None
+               and not (case["runner_completion"] and any(q.get("rc") for q in reqs)))
+    time_spec = t["warmup_t"] is not None or t["period"] is not None
+    iter_spec = not time_spec and (t["warmup_it"] is not None or t["iters"] is not None)
+
+    def numv(spec):
+        return None if spec is None else (Fraction(spec["int"]) if "int" in spec else Fraction(spec["float"]))
+
+    finite = False
+    if iter_spec:
+        warm = t["warmup_it"] or 0
+        n = t["iters"] if t["iters"] else (1 if case["src_infinite"] else None)
+        for i, tup in enumerate(tuples):
+            if tup["warmup"] != (i < warm):
+                ctx.fail("warmup-flag", f"iteration {i}: warm-up flag wrong for warmup-iterations={warm}", i < warm, tup["warmup"])
+        if n is not None and t["iters"] != 0:
+            finite = True
+            total = warm + n
+            if len(tuples) > total:
+                ctx.fail("iteration-count", "more requests than warmup-iterations + iterations", total, len(tuples))
+            if natural and len(reqs) >= total and len(tuples) != total:
+                ctx.fail("iteration-count", "fewer requests than warmup-iterations + iterations", total, len(tuples))
+            for i, tup in enumerate(tuples):
+                if tup["pc"] is None or not close(Fraction(tup["pc"]), Fraction(i + 1, total), exact):
+                    ctx.fail("progress", f"iteration {i}: progress is not (i+1)/total", str(Fraction(i + 1, total)), tup["pc"])
+            runner_progress_ = case["runner_completion"] and any(q.get("rp") is not None for q in reqs)
+            if natural and not runner_progress_ and len(reqs) >= total and samples and case["queue_cap"] >= total and (
+                    samples[-1]["progress"] is None or Fraction(samples[-1]["progress"]) != 1):
+                ctx.fail("progress", "iteration-based task does not end at progress 1", 1, samples[-1]["progress"])
+            ctx.count("oracle:iteration-based")
+    if time_spec and t["period"] is not None:
+        finite = True
+        warm = numv(t["warmup_t"]) or 0
+        dur = warm + numv(t["period"])
+        deadline = t0 + dur
+        tol = 0 if exact else TOL * max(1, abs(deadline))
+        for i, tup in enumerate(tuples):
+            # the loop control looks at the clock somewhere between the previous response (task start for the first
+            # request) and the moment this request goes out: "one request straddling the boundary may fall on either side"
+            lo = t0 if i == 0 else Fraction(wire[i - 1][1])
+            hi = Fraction(wire[i][0]) if i < len(wire) else Fraction(tup["at"])
+            if not lo < deadline + tol:
+                ctx.fail("time-stop", f"request {i} scheduled although warmup-time-period + time-period had elapsed before", str(deadline), str(lo))
+            if hi - t0 < warm - tol and not tup["warmup"]:
+                ctx.fail("warmup-flag", f"request {i} issued at elapsed {hi - t0} < warmup-time-period={warm} is not flagged warm-up", True, False)
+            if lo - t0 >= warm + tol and tup["warmup"]:
+                ctx.fail("warmup-flag", f"request {i} follows a response at elapsed {lo - t0} >= warmup-time-period={warm} but is flagged warm-up", False, True)
+            pc = None if tup["pc"] is None else Fraction(tup["pc"])
+            if pc is None or not (0 <= pc <= 1) or (dur and not ((lo - t0) / dur - TOL <= pc <= (hi - t0) / dur + TOL)):
+                ctx.fail("progress", f"request {i}: progress is not elapsed/duration", [str((lo - t0) / dur), str((hi - t0) / dur)] if dur else None, tup["pc"])
+        late = [w for w in wire if Fraction(w[0]) >= deadline + tol]
+        if len(late) > 1:
+            ctx.fail("time-stop", "more than one request issued after warmup-time-period + time-period", 1, len(late))
+        if late:
+            ctx.count("oracle:request-issued-after-deadline")
+        if natural and len(tuples) < len(reqs) and not Fraction(impl["end"]) >= deadline - tol:
+            ctx.fail("time-stop", "time-based task stopped before warmup-time-period + time-period", str(deadline), str(impl["end"]))
+        ctx.count("oracle:time-based")
+    # sample types never return from normal to warm-up
+    seen_normal = False
+    for i, tup in enumerate(tuples):
+        if seen_normal and tup["warmup"]:
+            ctx.fail("sample-type-order", f"request {i} is warm-up after a normal one", False, True)
+        seen_normal = seen_normal or not tup["warmup"]
+    # progress never decreases, stays in [0,1]
+    runner_progress = case["runner_completion"] and any(q.get("rp") is not None for q in reqs)
+    if finite and not runner_progress:
+        prev = None
+        for i, s in enumerate(samples):
+            p = s["progress"]
+            if p is None or not (0 <= Fraction(p) <= 1) or (prev is not None and Fraction(p) < prev):
+                ctx.fail("progress", f"sample {i}: progress decreases or leaves [0,1]", str(prev), p)
+            prev = None if p is None else Fraction(p)
+    if samples and (case["complete_at"] is not None or (case["runner_completion"] and any(q.get("rc") for q in reqs))):
+        if impl["result"] == "ok" and len(tuples) == len(samples) and len(tuples) <= len(reqs) and len(samples) < case["queue_cap"]:
+            q = reqs[len(samples) - 1]
+            ended_by_completion = (case["runner_completion"] and q.get("rc")) or (
+                case["complete_at"] is not None and case["complete_at"] <= len(samples) - 1 and not t["completes_parent"])
+            if ended_by_completion and (samples[-1]["progress"] is None or Fraction(samples[-1]["progress"]) != 1):
+                ctx.fail("progress", "externally completed task does not end at progress 1", 1, samples[-1]["progress"])
+    # scheduled times never decrease
+    for i in range(1, len(tuples)):
+        if Fraction(tuples[i]["sched"]) < Fraction(tuples[i - 1]["sched"]):
+            ctx.fail("scheduled-order", f"scheduled time of request {i} decreases", tuples[i - 1]["sched"], tuples[i]["sched"])
+    # deterministic pacing
+    rd = _tput_reading(case)
+    if rd is not None and t["sched"] in (None, "deterministic"):
+        T, tunit = rd
+        C = t["clients"]
+        units = {s["unit"] for s in samples if s["ops"] > 0}
+        # the documented rule needs the runner to report in the unit of the target throughput (or the target in ops/s: weight 1)
+        consistent = len(units) <= 1 and (all(u + "/s" == tunit for u in units) or tunit == "ops/s")
+        w_eff = None
+        for k in range(len(tuples) - 1):
+            if not consistent or k >= len(samples):
+                break
+            if samples[k]["ops"] > 0:
+                w_eff = samples[k]["ops"] if samples[k]["unit"] + "/s" == tunit else 1
+            delta = Fraction(tuples[k + 1]["sched"]) - Fraction(tuples[k]["sched"])
+            want = Fraction(0) if w_eff is None else Fraction(w_eff * C) / T
+            okay = delta == want if exact else abs(delta - want) <= Fraction(1, 2**48) * max(want, Fraction(tuples[k + 1]["sched"]))
+            if not okay:
+                ctx.fail("det-spacing", f"requests {k},{k + 1} are not scheduled weight*clients/throughput apart", str(want), str(delta))
+            ctx.count("oracle:det-spacing-pair")
+    # ramp-up
+    ramp = numv(t["ramp_up"])
+    if ramp and wire:
+        c = case["client"]
+        delay = ramp * c["gidx"] / c["total"]
+        first = t0 + delay + Fraction(reqs[0]["gen"]) + Fraction(reqs[0]["pre"])
+        if not close(Fraction(wire[0][0]), first, exact):
+            ctx.fail("ramp-up", "first request is not issued ramp-up*i/total after the task start", str(first), str(wire[0][0]))
+        ctx.count("oracle:ramp-up")
